@@ -218,6 +218,33 @@ let handle = function
        (match destroy h1 t with
         | Inl _ -> out_tree r (forget t) false ^ " CRASH free of the result"
         | Inr h2 -> out_tree r (forget t) false ^ Printf.sprintf " dirty=%d leak=%d" (if dirty then 1 else 0) (if h_live h2 = [] then 0 else 1)))
+  | ["regs"; dh; sh] ->
+    (* several calls on one registry; a sequence that contains iwjsreg_replace is not modelled *)
+    let doc = (try parse_json (str_of_hex dh) with Parse_error -> raise Exit) in
+    let steps = parse_json (str_of_hex sh) in
+    let (h0, root) = heap_of doc in
+    let step_of st = (match n_ch st with
+        | [k; p] -> (string_of_zl (n_vs k), n_vs p, None)
+        | [k; p; v] -> (string_of_zl (n_vs k), n_vs p, Some v)
+        | _ -> ("?", [], None)) in
+    let sts = List.map step_of (n_ch steps) in
+    if List.exists (fun (k, _, _) -> k <> "m") sts then "UNMODELLED (iwjsreg_replace: implementation and oracle only)"
+    else begin
+      let rec go h t dirty rcs = function
+        | [] -> Inr (h, t, dirty, List.rev rcs)
+        | (_, p, v) :: rest ->
+          (match iwjsreg_merge_model h t dirty p v with
+           | Inl e -> Inl e
+           | Inr (((r, h1), t1), d1) -> go h1 t1 d1 (rcname r :: rcs) rest) in
+      (match go h0 root false [] sts with
+       | Inl DoubleFree -> "CRASH double-free"
+       | Inl UseAfterFree -> "CRASH use-after-free"
+       | Inr (h1, t, dirty, rcs) ->
+         (match destroy h1 t with
+          | Inl _ -> "CRASH free of the result"
+          | Inr h2 -> Printf.sprintf "rcs=%s %s dirty=%d leak=%d" (String.concat "," rcs) (out_tree RcOk (forget t) false)
+                        (if dirty then 1 else 0) (if h_live h2 = [] then 0 else 1)))
+    end
   | ["cmp"; ah; bh] ->
     let a = parse_json (str_of_hex ah) in
     let b = parse_json (str_of_hex bh) in
